@@ -8,7 +8,7 @@ import itertools
 
 from ref import tree
 
-VALID_ID = "11111111-2222-4333-8444-555555555555"
+VALID_ID = "1a2b3c4d-2222-4333-8444-5555555555ef"     # with hex letters, so that the upper-case spelling differs
 
 POOL_SPEC = [
     ("D",), ("D",),
